@@ -308,7 +308,8 @@ func (c *Collection) WriteUpdateWithXattrs(
 				if len(updatedDoc.XattrsToDelete) > 0 {
 					return 0, sgbucket.ErrDeleteXattrOnTombstone
 				}
-				casOut, err = c.WriteResurrectionWithXattrs(ctx, key, exp, updatedDoc.Doc, updatedDoc.Xattrs, opts)
+				// resurrect only the tombstone the callback was shown, otherwise retry
+				casOut, err = c.writeResurrectionWithXattrs(key, exp, updatedDoc.Doc, updatedDoc.Xattrs, &cas, opts)
 			} else {
 				// Update body and/or xattr:
 				casOut, err = c.WriteWithXattrs(ctx, key, exp, cas, updatedDoc.Doc, updatedDoc.Xattrs, updatedDoc.XattrsToDelete, opts)
@@ -385,6 +386,11 @@ func (c *Collection) WriteTombstoneWithXattrs(
 
 // WriteResurrectionWithXattrs creates an alive document with a given tombstone and xattrs.
 func (c *Collection) WriteResurrectionWithXattrs(ctx context.Context, k string, exp uint32, value []byte, xattrsValues map[string][]byte, opts *sgbucket.MutateInOptions) (casOut uint64, err error) {
+	return c.writeResurrectionWithXattrs(k, exp, value, xattrsValues, nil, opts)
+}
+
+// writeResurrectionWithXattrs is WriteResurrectionWithXattrs with an optional check of the tombstone's CAS.
+func (c *Collection) writeResurrectionWithXattrs(k string, exp uint32, value []byte, xattrsValues map[string][]byte, ifCas *CAS, opts *sgbucket.MutateInOptions) (casOut uint64, err error) {
 	if value == nil {
 		return 0, sgbucket.ErrNeedBody
 	}
@@ -400,7 +406,7 @@ func (c *Collection) WriteResurrectionWithXattrs(ctx context.Context, k string, 
 		}
 		xattrs[xattrKey] = payload{marshaled: xv}
 	}
-	return c.writeWithXattrs(k, vp, xattrs, nil, expP, writeXattrOptions{insertDoc: true}, opts)
+	return c.writeWithXattrs(k, vp, xattrs, ifCas, expP, writeXattrOptions{insertDoc: true, casOnResurrection: ifCas != nil}, opts)
 }
 
 // Updates an xattr and deletes the body (making the doc a tombstone.)
@@ -497,6 +503,7 @@ type writeXattrOptions struct {
 	isDelete           bool // Allow ressurecting a tombstone
 	requireExistingDoc bool // Return KeyNotFoundError if doc doesn't already exist
 	deleteBody         bool // Delete the body along with updating tombstone
+	casOnResurrection  bool // Check `ifCas` against the tombstone being resurrected
 }
 
 // checkCasXattr checks the cas supplied against the current cas of the document. existingCas is the current Cas of the document (will be 0 if no document) and expectedCas is the expected value. Returns CasMismatchErr on an unsuccesful CAS check.
@@ -549,7 +556,7 @@ func (c *Collection) writeWithXattrs(
 		if err := scan(row, &e.value, &e.isJSON, &prevCas, &e.exp, &e.xattrs, &wasTombstone, &e.revSeqNo); err == nil {
 			if wasTombstone == 1 && (val != nil && !val.isNil()) {
 				// couchbase server can't perform a cas check on a tombstone so we return ErrKeyExists
-				if ifCas != nil && *ifCas != 0 {
+				if ifCas != nil && *ifCas != 0 && !opts.casOnResurrection {
 					return nil, sgbucket.ErrKeyExists
 				}
 				e.xattrs = nil // xattrs are cleared whenever resurrecting a tombstone
